@@ -5,7 +5,7 @@ Generated string syntax is placed in real test cases and run through the real CL
   * the argv received by the probe in `% PROBE OUT CTRL ARG...` / `run ( % PROBE ... )`,
   * the elements of `def list LK = ...` (spliced into a probe's argv, and joined inside soft quotes),
   * `def string SK = SYNTAX` (observed through a file),
-  * the name of the file created by `file -rel-act SYNTAX = 'cK'` (FILE-NAME of a PATH is a STRING),
+  * the name of the file created by `file [-rel-act] SYNTAX = 'cK'` (FILE-NAME of a PATH is a STRING),
   * syntax-error reports for unterminated quotes / here-documents / unquoted reserved words.
 Oracle: vf/models/strings.py (independent reader of the documented syntax, reads the whole case text), cross
 checked in every case against the value the generator knows by construction.
@@ -64,11 +64,11 @@ EXHAUSTIVE_NOTE = ('every string of <= 3 alphabet symbols x every split into <= 
                    'with a quoted fragment; unterminated here-documents with every marker look-alike')
 MIN_OBS = {
     'quick': {'evaluations': 70000, 'c09.file_contents_compared': 20000, 'c09.argv_compared': 25000,
-              'c09.list_elements_compared': 14000, 'c09.error_reports_checked': 1400,
+              'c09.list_elements_compared': 14000, 'c09.error_reports_checked': 1400, 'c09.file_names_compared': 800,
               'c09.here_documents_compared': 3000, 'c09.text_until_eol_compared': 1000,
               'c09.model_vs_construction_agree': 38000, 'classes': 3000},
     'thorough': {'evaluations': 100000, 'c09.file_contents_compared': 30000, 'c09.argv_compared': 30000,
-                 'c09.list_elements_compared': 18000, 'c09.error_reports_checked': 2500,
+                 'c09.list_elements_compared': 18000, 'c09.error_reports_checked': 2500, 'c09.file_names_compared': 1500,
                  'c09.here_documents_compared': 6000, 'c09.text_until_eol_compared': 3000,
                  'c09.model_vs_construction_agree': 60000, 'classes': 4000},
 }
@@ -264,6 +264,16 @@ def fname_ok(fr):
         return False
     if fr[0][0] == 'N' and fr[0][1].startswith('-'):
         return False
+    # routing around S7: if what precedes the first naked `#` denotes the empty string, the cut token is an empty file
+    # name, and what the implementation then does (validation error / "list index out of range") is not predictable
+    prefix = []
+    for k, r in ([] if starts_with_naked_hash(fr) else fr):
+        if k == 'N' and '#' in r:
+            prefix.append([k, r[:r.index('#')]])
+            if value_of([x for x in prefix if x[1] != '' or x[0] != 'N']) == '':
+                return False
+            break
+        prefix.append([k, r])
     return not is_whole_naked_list_ref(fr)
 
 
@@ -654,19 +664,20 @@ def render_item(item, k, paths):
 
         if ctx == 'fname':
             eq = (' = ', '   =   ', '\t= ', ' =\t')[v % 4]
+            rel = '-rel-act ' if v % 2 else ''  # with / without explicit relativity (default: current dir = act)
             if t == 'unq':
-                r.lines = ['file -rel-act %s%sx' % (src, eq)]
+                r.lines = ['file %s%s%sx' % (rel, src, eq)]
             elif (v // 4) % 5 == 0:
-                r.lines = ['file -rel-act %s%s' % (src, ('', '  ', '\t')[(v // 20) % 3])]  # "file PATH": empty file
+                r.lines = ['file %s%s%s' % (rel, src, ('', '  ', '\t')[(v // 20) % 3])]  # "file PATH": empty file
                 r.obs = [] if r.error else [('file', val, '')]
                 eq = 'no-contents'
             else:
-                r.lines = ["file -rel-act %s%s'c%d'" % (src, eq, k)]
+                r.lines = ["file %s%s%s'c%d'" % (rel, src, eq, k)]
             if t == 'unq' or r.error:
                 r.obs = []
             elif eq != 'no-contents':
                 r.obs = [('file', val, 'c%d' % k)]
-            r.cls = (ctx, pattern, 'eq%d' % (v % 4) if eq != 'no-contents' else eq)
+            r.cls = (ctx + ('-rel' if rel else ''), pattern, 'eq%d' % (v % 4) if eq != 'no-contents' else eq)
             r.feat = feat
             r.counter = 'c09.file_names_compared'
             return r
@@ -987,7 +998,12 @@ def _evaluate(ctx, ses, items, case_n, single, acc):
                 if kind == 'file':
                     want = exp['files'][name]
                     got = obs['files'].get(name)
-                    if got != want:
+                    if got != want and got is None:
+                        ok = False
+                        bad('no file with the denoted name %r was created by %r; files created: %r'
+                            % (name, r.lines[0][:120], sorted(set(obs['files']) - set(exp['files']))),
+                            'file:' + name, want, got, '\n'.join(r.lines))
+                    elif got != want:
                         ok = False
                         bad('file contents differ from the documented reading of %r: expected %r, observed %r'
                             % (r.lines[0][:120], want, got), 'file:' + name, want, got, '\n'.join(r.lines))
